@@ -19,7 +19,18 @@ import (
 
 func TestMain(m *testing.M) { drv.Main(m) }
 
-const rule = "a reachable CL pool state is produced by a generated prefix of the C01/C07 state machine (positions overlapping/disjoint/one-sided, swaps, withdrawals; every spacing and spread factor incl. zero; taker fee set to 0 so trader amounts are pool amounts), then one probed swap (direction, exact-in/out, amount from 1 unit to draining); oracle: (a) exact curve walk in big.Rat through the same initialised ticks (implementation's tick sqrt prices as bucket edges) - paid out <= ideal, charged >= ideal, difference <= beta = 2 + sum over buckets (2 + 2 x marginal price of the other token + 4 L 1e-36 (1 + 1/s^2)), i.e. one unit per computed amount of each bucket expressed in the judged token plus sqrt-price granularity; (b) poolmanager estimate on the same state == executed amount; (c) estimate leaves the digest of all stores unchanged; (d) swapping there and straight back never returns more than was put in; failed swaps are skipped; non-trivial = the walk crossed an initialised tick, ended exactly on one, traversed an empty gap or left a sub-unit remainder; distinct by history hash"
+const rule = "a reachable CL pool state is produced by a generated prefix of the C01/C07 state machine (positions overlapping/disjoint/one-sided, swaps, withdrawals; every spacing and spread factor incl. zero; taker fee set to 0 so trader amounts are pool amounts), then one probed swap (direction, exact-in/out, amount from 1 unit to draining); oracle: (a) exact curve walk in big.Rat through the same initialised ticks (implementation's tick sqrt prices as bucket edges) - paid out <= ideal, charged >= ideal, difference <= beta = 2 + sum over buckets (2 + 2 x marginal price of the other token + 4 L 1e-36 (1 + 1/s^2)), i.e. one unit per computed amount of each bucket expressed in the judged token plus sqrt-price granularity; (b) poolmanager estimate on the same state == executed amount, and the pool module's quote with a caller-chosen spread factor (0 .. 5%) == its swap with that spread factor; (c) estimate leaves the digest of all stores unchanged; (d) swapping there and straight back never returns more than was put in; failed swaps are skipped; non-trivial = the walk crossed an initialised tick, ended exactly on one, traversed an empty gap or left a sub-unit remainder; distinct by history hash"
+
+// quietly turns a panic of a query into an error, as the query server's recovery does (the swap math panics on purpose
+// in a few sub-unit corners; a transaction hitting them fails as a whole).
+func quietly(f func() error) (err error) {
+	defer func() {
+		if r := recover(); r != nil {
+			err = fmt.Errorf("panic: %v", r)
+		}
+	}()
+	return f()
+}
 
 func coin(d string, a *big.Int) sdk.Coin { return sdk.NewCoin(d, osmomath.NewIntFromBigInt(a)) }
 
@@ -105,6 +116,47 @@ func TestPropSwapCurve(t *testing.T) {
 			}
 			if !exactIn && est.BigInt().Cmp(paid) != 0 {
 				rt.Fatalf("exact-out swap for %s%s: estimate %s%s but execution charged %s [history %v]", amt, out, est, in, paid, s.Hist)
+			}
+			// (b') the pool module's own quote and swap take the spread factor from their caller (the pool manager passes the
+			// pool's, its price-impact queries pass zero): for ANY spread factor the quote must equal the execution with it
+			{
+				sf := rapid.SampledFrom([]string{"0", "0.0001", "0.0005", "0.003", "0.01", "0.05"}).Draw(rt, "callerSpread")
+				callerSpread := osmomath.MustNewDecFromStr(sf)
+				clk := ch.App.ConcentratedLiquidityKeeper
+				poolI, perr := clk.GetConcentratedPoolById(ch.Ctx, s.PoolID)
+				if perr != nil {
+					rt.Fatalf("harness: %v", perr)
+				}
+				var q, x osmomath.Int
+				var qErr, xErr error
+				b2 := ch.Branch()
+				if exactIn {
+					var qc sdk.Coin
+					qErr = quietly(func() (e error) { qc, e = clk.CalcOutAmtGivenIn(ch.Ctx, poolI, coin(in, amt), out, callerSpread); return })
+					q = qc.Amount
+					xErr = b2.Try(func(ctx sdk.Context) (e error) {
+						x, e = b2.App.ConcentratedLiquidityKeeper.SwapExactAmountIn(ctx, trader, poolI, coin(in, amt), out, osmomath.OneInt(), callerSpread)
+						return
+					})
+				} else {
+					var qc sdk.Coin
+					qErr = quietly(func() (e error) { qc, e = clk.CalcInAmtGivenOut(ch.Ctx, poolI, coin(out, amt), in, callerSpread); return })
+					q = qc.Amount
+					max, _ := new(big.Int).SetString("100000000000000000000000000000000000000000", 10)
+					xErr = b2.Try(func(ctx sdk.Context) (e error) {
+						x, e = b2.App.ConcentratedLiquidityKeeper.SwapExactAmountOut(ctx, trader, poolI, in, osmomath.NewIntFromBigInt(max), coin(out, amt), callerSpread)
+						return
+					})
+				}
+				if ch.Digest() != d0 {
+					rt.Fatalf("pool-module quote changed state [history %v]", s.Hist)
+				}
+				if xErr == nil {
+					if qErr != nil || !q.Equal(x) {
+						rt.Fatalf("exactIn=%v amount %s with caller spread factor %s: pool-module quote %v (err %v), execution %s [history %v]", exactIn, amt, sf, q, qErr, x, s.Hist)
+					}
+					c.Class("caller-spread-quote-checked")
+				}
 			}
 			// (a) curve walk
 			desc := fmt.Sprintf("zfo=%v exactIn=%v amt=%s paid=%s got=%s ideal in=%s out=%s buckets=%d beta=%s", zfo, exactIn, amt, paid, got, ref.In.FloatString(3), ref.Out.FloatString(3), len(ref.Buckets), ref.Beta.FloatString(3))
